@@ -61,7 +61,7 @@ type inFrame struct {
 }
 
 type spec struct {
-	Fam      string    `json:"fam"` // send | inbound | pipe
+	Fam      string    `json:"fam"` // send | queued | inbound | pipe
 	Active   bool      `json:"active"`
 	Equip    bool      `json:"equip,omitempty"`
 	Validate bool      `json:"validate,omitempty"`
@@ -611,6 +611,94 @@ func runSend(h *hx) string {
 	return fmt.Sprintf("%s/%v/drop+%d", sit.err, sit.linked, refused)
 }
 
+// ---- data queued while Selected, link deselected before it is written ----
+
+var queuedEntries = []string{"async", "reply", "forward-async"}
+
+// runQueued: the peer's receive window is closed, so the first asynchronous data send
+// blocks inside its write and the second waits in the send queue; the peer then deselects
+// the link. When the window reopens, the write that was already in progress may complete,
+// but the queued message is written while State() is NotSelected only if the library lets
+// data flow outside Selected: it must be dropped and counted instead.
+func runQueued(h *hx) string {
+	w, sp := h.w, h.sp
+	m := w.C.Metrics()
+	if !h.establish() {
+		return ""
+	}
+	es := entryList(sp.Entry)
+	if len(es) != 2 {
+		h.harness("queued family needs two entry points, got %q", sp.Entry)
+		return ""
+	}
+	w.Read()
+	f0 := len(w.Frames)
+	drop0, bytes0 := m.DataMsgDropNotSelectedCount(), h.totalBytes()
+	w.Peer.Stall()
+	for i, e := range es {
+		var err error
+		call := w.Go(func() { err = h.invoke(e) })
+		w.Settle()
+		if !call.Done() || err != nil {
+			h.bad("queued:selected-send:"+e, "%s (send %d) while Selected with a stalled peer: done=%v err=%v", e, i+1, call.Done(), err)
+			return ""
+		}
+	}
+	if n := h.totalBytes(); n != bytes0 {
+		h.harness("stalled peer received %d bytes", n-bytes0)
+		return ""
+	}
+	sid, sys := uint16(0x5555), h.sys()
+	w.Send(peer.Ctrl(peer.SDeselectReq, sid, 0, 0, sys))
+	if st := w.C.State(); st != hsms.NotSelectedState {
+		h.bad("queued:deselect-state", "State()=%v after Deselect.req while Selected", st)
+		return ""
+	}
+	w.Peer.Unstall()
+	w.Settle()
+	w.Advance(tLittle)
+	fs := w.Read()
+	var data, ctrl []peer.Frame
+	for _, f := range fs {
+		if f.SType == peer.SData {
+			data = append(data, f)
+		} else {
+			ctrl = append(ctrl, f)
+		}
+	}
+	if want := peer.Ctrl(peer.SDeselectRsp, sid, 0, 0, sys).Key(); len(ctrl) != 1 || ctrl[0].Key() != want {
+		h.bad("queued:deselect-answer", "control frames after the window reopened: %v, want [%s]", keys(ctrl), want)
+		return ""
+	}
+	first := h.describe(es[0])
+	wantFirst := peer.Data(libSession, first.s, first.f, first.w, first.sys, itemBytes)
+	if len(data) > 0 && first.sys == 0 {
+		wantFirst.Sys = data[0].Sys
+	}
+	if len(data) > 1 || (len(data) == 1 && data[0].Key() != wantFirst.Key()) {
+		h.bad("queued:written-after-deselect:"+es[1], "data queued behind an in-progress write was put on the wire after the link was deselected: wire %v (only the write already in progress, %s, may complete)", keys(fs), wantFirst.Key())
+		return ""
+	}
+	if got, want := m.DataMsgDropNotSelectedCount(), drop0+uint64(2-len(data)); got != want {
+		h.bad("queued:drop-count:"+es[1], "%d of 2 queued data messages reached the wire, drop counter went %d -> %d, want %d", len(data), drop0, got, want)
+		return ""
+	}
+	if st := w.C.State(); st != hsms.NotSelectedState || w.Peer.SawEOF() {
+		h.bad("queued:link", "State()=%v, peer EOF=%v after the queued data was refused", st, w.Peer.SawEOF())
+		return ""
+	}
+	if !h.linktestProbe("queued:control-traffic") || !h.selectNow() {
+		return ""
+	}
+	w.Advance(tLittle)
+	w.Read()
+	if d := dataFrames(w.Frames[f0:]); len(d) != len(data) {
+		h.bad("queued:late-data:"+es[1], "refused data reached the wire after the re-select: %v", d)
+		return ""
+	}
+	return fmt.Sprintf("in-progress-written%d/dropped%d", len(data), 2-len(data))
+}
+
 // ---- inbound data while not selected ----
 
 func (f inFrame) frame() peer.Frame {
@@ -645,8 +733,6 @@ func runInbound(h *hx) string {
 	}
 	w.Read()
 	_, del0, _ := w.Snapshot()
-	rej0 := w.C.ControlMetrics()
-	_ = rej0
 	for i, in := range sp.In {
 		fr := in.frame()
 		w.Send(fr)
@@ -896,6 +982,8 @@ func opts(sp spec) e2.Opts {
 
 var onLeak func(string)
 
+var flaky []string
+
 func run(t *testing.T, sp spec) (outcome string, fail *failure, leak string) {
 	leak = e2.Run(t, func(w *e2.World) {
 		w.OnLeak = onLeak
@@ -908,6 +996,8 @@ func run(t *testing.T, sp spec) (outcome string, fail *failure, leak string) {
 			outcome = runInbound(h)
 		case "pipe":
 			outcome = runPipe(h)
+		case "queued":
+			outcome = runQueued(h)
 		default:
 			h.harness("unknown family %q", sp.Fam)
 		}
@@ -935,6 +1025,22 @@ func check(c *vfw.Ctx, t *testing.T, sp spec) {
 	outcome, fail, leak := run(t, sp)
 	c.Case(true)
 	c.Add("executions:"+sp.Fam, 1)
+	if fail != nil && fail.key != "harness" && leak == "" {
+		// policy against false alarms (DESIGN.md 3.2): a violation must reproduce on every one of
+		// 4 more executions of the same history; a flicker is schedule-dependent (engine E3's
+		// job) and is logged in the evidence, never reported as a VIOLATION.
+		for i := 0; i < 4; i++ {
+			_, again, _ := run(t, sp)
+			c.Add("executions:confirm", 1)
+			if again == nil || again.key != fail.key {
+				flaky = append(flaky, sp.String()+" -> "+fail.key)
+				c.Add("flaky_cases", 1)
+				c.Set("flaky_histories", flaky[:min(len(flaky), 10)])
+				c.Outcome("flaky")
+				return
+			}
+		}
+	}
 	if leak != "" {
 		c.Violate("goroutine-leak", "library goroutines alive after Close: "+leak[:min(len(leak), 600)], sp)
 	}
@@ -952,6 +1058,8 @@ func check(c *vfw.Ctx, t *testing.T, sp spec) {
 		c.Outcome("send:" + sp.Sit + ":" + outcome)
 	case "inbound":
 		c.Outcome("inbound:" + sp.Sit + ":" + outcome)
+	case "queued":
+		c.Outcome("queued:" + outcome)
 	default:
 		c.Outcome("pipe:" + sp.Stream + ":" + outcome)
 	}
@@ -981,6 +1089,7 @@ func TestCheck(t *testing.T) {
 		c.Level("exploration")
 		c.Rule("E2, one fresh real hsmsss connection per case (synctest bubble, sim network), roles active and passive. " +
 			"send: every not-selected situation reached by a history {never opened, dial black-holed, dial refused, listening, TCP up not selected, deselected by the peer, active select rejected (status 2), peer closed / sent Separate and the library waits in backoff, T6/T7 expiry, re-dialed not yet selected, closed, closed+reopened (connecting/listening/not yet selected)} x entry point {SendDataMessage W, no-W, SendDataMessageAsync, SendSECS2Message, ReplyDataMessage, ForwardDataMessage, ForwardDataMessageAsync, all seven in a row}: prompt not-selected/not-open error, zero bytes on every peer socket (at once, 50 ms later, on the next generation), drop counter +1 per call, linktest still answered, and after the select completes each entry point writes exactly its one frame. " +
+			"queued: the peer's receive window is closed, two asynchronous data sends {SendDataMessageAsync, ReplyDataMessage, ForwardDataMessageAsync}^2 are accepted while Selected (the first blocks in its write, the second waits in the queue), the peer deselects, the window reopens: only the write already in progress may complete, the queued message never reaches the wire (not even after a re-select) and is counted as one drop. " +
 			"inbound: every connected-not-selected situation x 1..2 data frames over kinds {primary W, primary, secondary, primary with body, SxF0, S9F1} x session id {own, foreign, 0xFFFF, 0} x system bytes {0, 1, 2^32-1, arbitrary} x session-id validation: exactly Reject.req(reason 4, echoed session id and system bytes), no delivery, state and link unchanged, linktest answered, select accepted, data then delivered byte-identical. " +
 			"pipe: streams [Select.rsp(0)][data]{1,2} (active), [Select.req][data]{1,2} (passive), [Deselect.req][Select.req][data] (both), [Select.req][data] against the active library's own outstanding select, under every segmentation with <= 2 cut points plus all-single-bytes (thorough: also 1 ms between segments, 3 cut points on the <= 31-byte streams, ordered pairs of entry points, equip/validation variants of send): deliveries in order and byte-identical, exact control answers, never a Reject. non-trivial = every case")
 		c.Assume("testing/synctest virtual time and durable-blocking detection", "sim in-memory network", "expected frames written from SEMI E37 (Reject.req layout, Select/Deselect/Linktest answers)", "Select.rsp status 2 and T6/T7 expiry drop the link (checked by the recipes, harness error otherwise)")
@@ -1025,6 +1134,16 @@ func TestCheck(t *testing.T) {
 								}
 							}
 						}
+					}
+				}
+			}
+		}
+		// ---- queued ----
+		for _, active := range roles {
+			for _, e1 := range queuedEntries {
+				for _, e2 := range queuedEntries {
+					if !do(spec{Fam: "queued", Active: active, Entry: e1 + "+" + e2}) {
+						return
 					}
 				}
 			}
